@@ -114,6 +114,25 @@ def run(ck):
                     viol.append(dict(kind='output', argv=argv, observed='%s %s' % (o, det)))
                 elif o != want:
                     dis.append(dict(why='output stage %s%s: implementation %s, model %s' % (opt, e, o, want), argv=argv))
+    # 1c. every combination of the result options (far field in dBi / in V/m, near field, none) with and without the
+    # values they use (distance, powers), each with both output files requested: the writers of the two files take
+    # the requested results too
+    import itertools
+    opts_all = ['far-field', 'far-field-absolute', 'near-field', 'none']
+    extras = [[], ['--ff-distance=100'], ['--ff-power=10'], ['--nf-power=5'], ['--ff-distance=100', '--ff-power=10', '--nf-power=5'],
+              ['--ff-distance=0']]
+    for r_ in (1, 2, 3):
+        for combo in itertools.combinations(opts_all, r_):
+            for ex in extras:
+                for nf in ([], ['--near-field=1,1,1,1,1,1,2,1,1']):
+                    argv = base + ['--option=' + o_ for o_ in combo] + ex + nf + \
+                           ['--output-basic-input=' + good, '--output-cmdline=' + good + '.cmd']
+                    o, det = fuzzcmd.outcome(argv, limit=60)
+                    ncell += 1
+                    ck.case(('options', combo, tuple(ex), bool(nf)), True)
+                    ck.count('optcombo_' + o)
+                    if o not in ('usage', 'diag', 'report'):
+                        viol.append(dict(kind='option-combination', argv=argv, observed='%s %s' % (o, det)))
     ck.stats['table_cells'] = ncell
     ck.cov['exhaustive'] = True
     # 2. fuzzing stream
